@@ -30,6 +30,22 @@ CHECKS['C19'] = dict(
          'reported separately, never counted); user-supplied divmod/rake not covered; float arithmetic treated as real.',
     technique='sidecar contracts + own VC generator + z3 (linear / nonlinear real arithmetic); exhaustive closed evaluation for 70 cards')
 
+CHECKS['C04'] = dict(
+    category='proof',
+    text='The property quantifies over all hands and all pairs of a finite deck, so it is decided completely: (E) every lookup table is '
+         'built by the real nullary constructor and compared over its ENTIRE key space with an independent evaluator written from the rules '
+         '(spec/ranking.py): validity, dense indices, order isomorphism, labels; every hand class is run on EVERY card subset of the 52-card '
+         'deck of the admissible sizes (thorough: all 2 598 960 five-card subsets for each of the eight five-card types, 294 203 subsets for '
+         'each badugi type) -- accepted iff the rules say it is a hand, entry index order-isomorphic to the rule strength, which settles <, '
+         '==, > for all pairs; (D) the comparison wrappers __eq__/__lt__/__hash__/__init__ and the total_ordering derivations (read from '
+         'the standard library source) are proved for symbolic entry indices for all 11 hand classes.',
+    design_ref='DESIGN.md section 4 (C04), section 8',
+    note='E obligations: complete for the stated domain, back end is CPython running the real code. quick tier covers the 52-card five-card '
+         'types through the 7 462-key space (assumes unique factorisation of the rank-prime products); thorough tier enumerates all subsets '
+         'and does not. Subsets of 6+ cards are not enumerated.',
+    technique='exhaustive closed evaluation of nullary table constructors and finite card domains against an independent rule spec + '
+              'deductive VCs (pyvc/z3) for the comparison wrappers')
+
 NOT_APPLICABLE = {
     'C20': 'regex-driven text importers against external site formats; no contract within reach expresses or decides it (DESIGN.md section 5)',
 }
